@@ -206,6 +206,10 @@ impl FileSystem for OverlayFS {
         if self.read_path(path)?.metadata()?.file_type != VfsFileType::Directory {
             return Err(VfsErrorKind::Other("Not a directory".into()).into());
         }
+        // children may live in lower layers only
+        if self.read_dir(path)?.next().is_some() {
+            return Err(VfsErrorKind::Other("Directory to remove is not empty".into()).into());
+        }
         let write_path = self.write_path(path)?;
         if write_path.exists()? {
             write_path.remove_dir()?;
